@@ -11,4 +11,6 @@ for p in mutants/$PAT*.patch seeded/$PAT*/patch.diff; do
   rc=$(grep -o 'mut.sh: exit=[0-9]*' "$out" | tail -1)
   sigs=$(grep -o 'signature=[^ ]*' "$out" | sort -u | tr '\n' ' ')
   echo "$ID vs $n: $rc $sigs"
+  mkdir -p sensitivity
+  grep -v "^$ID vs $n:" sensitivity/$ID.txt 2>/dev/null > sensitivity/$ID.txt.tmp; echo "$ID vs $n: $rc $sigs" >> sensitivity/$ID.txt.tmp; sort sensitivity/$ID.txt.tmp > sensitivity/$ID.txt; rm -f sensitivity/$ID.txt.tmp
 done
